@@ -16,8 +16,8 @@
 (* of the flattened (B,N) batch,  Tz = clamp(r_i + (1-d_i) gamma z_j),     *)
 (* b = (Tz - vmin)/delta, l = floor b, u = ceil b, repairs l = u by        *)
 (*   L[(u > 0) * (L == u)] -= 1 ; u[(L < N-1) * (L == u)] += 1             *)
-(* (in that order) and then performs two index_add_ passes over the        *)
-(* flattened elements into the flattened result, with row offsets          *)
+(* (in that order; action Indices) and then performs two index_add_ passes *)
+(* over the flattened elements into the flattened result, with row offsets *)
 (* linspace(0, (B-1)N, B).long():                                          *)
 (*   m[l + off_i] += p_ij (u - b)      (first pass,  action AddLower)      *)
 (*   m[u + off_i] += p_ij (b - l)      (second pass, action AddUpper)      *)
